@@ -229,6 +229,9 @@ func (p *parser) sentence() Item {
 	case "Definition":
 		p.next()
 		it.Kind = "def"
+		if t := p.peek(); t.Kind == TIdent && CoqReserved[t.Text] {
+			p.fail("%q is a reserved word of Coq and cannot be the name of a definition", t.Text)
+		}
 		it.Name = p.ident()
 		for p.isSym("(") {
 			p.next()
@@ -261,6 +264,11 @@ func (p *parser) sentence() Item {
 }
 
 // ---------------------------------------------------------------- expressions
+
+// CoqReserved are identifiers the Coq lexer treats as keywords in terms.
+var CoqReserved = map[string]bool{"Set": true, "Prop": true, "Type": true, "SProp": true, "end": true, "exists": true, "exists2": true, "fix": true,
+	"cofix": true, "forall": true, "fun": true, "in": true, "let": true, "match": true, "then": true, "with": true, "as": true, "at": true,
+	"using": true, "where": true, "if": true, "else": true, "return": true, "for": true, "IF": true}
 
 var keywords = map[string]bool{"in": true, "then": true, "else": true, "with": true, "end": true, "fun": true}
 
